@@ -150,7 +150,7 @@ def runtime_check(res: Result, ws_name, decls, props_to_run, extra_emit=None, fe
     unspec = {k: v for k, v in quarantined.items() if by_id[k][0].unspecified}
     quarantined = {k: v for k, v in quarantined.items() if k not in unspec}
     res.extra.setdefault("coverage_extra", {})["unspecified_declarations_rejected"] = {k: by_id[k][0].decl_text() for k in unspec}
-    res.quarantined = {k: {"decl": by_id[k][0].decl_text(), "errors": v} for k, v in quarantined.items()}
+    res.quarantined = {k: {"decl": by_id[k][0].decl_text(), "errors": v, "tags": list(by_id[k][0].tags), "derives": list(by_id[k][0].derives)} for k, v in quarantined.items()}
     if not ok:
         res.inconclusive.append("harness build failed: %s" % (json.dumps(info)[:1500]))
         return None, by_id
